@@ -597,6 +597,8 @@ def flow_steps(cx):
         cx.keys.add(repr(('FLOW', act['op'], ok, act.get('days', 0) > 0)))
         pub0, pub1 = s0['pub'], s1['pub']
         try:
+            if act['op'] in ('deposit', 'withdraw') and isinstance(pub0.get('p_total_value'), float):
+                cx.case('flow.guard', 'chk_flow_guard %s %s %s' % (q(s0['units']), q(pub0['p_total_value']), blit(not ok)), dict(act=act, raised=not ok))
             if not ok:
                 if a0['total_cash'] != a1['total_cash'] or a0['pending'] != a1['pending'] or s0['units'] != s1['units']:
                     cx.hit('C03.refused_flow_changed_state', dict(op=act['op']), dict(act=act))
